@@ -4,7 +4,9 @@ import (
 	"encoding/hex"
 	"encoding/json"
 	"fmt"
+	"github.com/wi1dcard/fingerproxy/pkg/reverseproxy"
 	"math/rand"
+	"net/http"
 	"os"
 	"strconv"
 	"strings"
@@ -302,6 +304,14 @@ func runCase(st *stack.Stack, c Case, idx int) CaseObs {
 	return obs
 }
 
+type nothingInjector struct {
+	name string
+	err  error
+}
+
+func (n nothingInjector) GetHeaderName() string                        { return n.name }
+func (n nothingInjector) GetHeaderValue(*http.Request) (string, error) { return "", n.err }
+
 func runStack(out string, _ string) {
 	seed, _ := strconv.ParseInt(os.Getenv("VERIF_SEED"), 10, 64)
 	tier := os.Getenv("VERIF_TIER")
@@ -311,6 +321,14 @@ func runStack(out string, _ string) {
 		panic(err)
 	}
 	defer st.Close()
+	// every second case runs against a handler whose injector list is in another order, behind an injector that yields nothing and one
+	// that fails (the list and its order are the user's; what one injector yields says nothing about the next)
+	d := stack.DefaultInjectors(^uint(0))
+	st2, err := stack.Start(stack.Options{Injectors: []reverseproxy.HeaderInjector{nothingInjector{"X-Vf-Nothing", nil}, d[2], nothingInjector{"X-Vf-Failing", fmt.Errorf("fails on purpose")}, d[1], d[0]}})
+	if err != nil {
+		panic(err)
+	}
+	defer st2.Close()
 	cases := buildCases(rng, tier)
 	res := make([]CaseObs, len(cases))
 	var wg sync.WaitGroup
@@ -321,7 +339,11 @@ func runStack(out string, _ string) {
 		go func(i int) {
 			defer wg.Done()
 			defer func() { <-sem }()
-			res[i] = runCase(st, cases[i], i)
+			if i%2 == 1 {
+				res[i] = runCase(st2, cases[i], i)
+			} else {
+				res[i] = runCase(st, cases[i], i)
+			}
 		}(i)
 	}
 	wg.Wait()
